@@ -273,3 +273,68 @@ def buffiter_bounded(repo):
 
 
 BOUNDS = {"buffiter_bounded": ("rpyc/utils/helpers.py::buffiter", BUFFITER_BOUND)}
+
+
+# ---------------------------------------------------------------------------------------------------------------
+# BOUNDED stand-in (never counted as proved): RegistryServer.cmd_query uses sorted() over a dict view with a key function -
+# outside the verifier's subset.  It is run on the real class (no sockets) against the statement's answer for EVERY table inside
+# the bound: membership, pruning interval, oldest refresh first, case-insensitive name, removal notifications of pruned entries.
+# ---------------------------------------------------------------------------------------------------------------
+QUERY_BOUND = ("up to 3 servers under the queried name (all insertion orders) plus one under another name, refresh times drawn from "
+               "{fresh, fresh-older, exactly at the pruning limit, stale} in every combination, 3 spellings of the name")
+_QUERY = r'''
+import sys, json, itertools, time
+sys.path.insert(0, sys.argv[1])
+from rpyc.utils import registry
+class Probe(registry.RegistryServer):
+    def __init__(self):
+        self.services = {}; self.pruning_timeout = 100.0; self.removed = []; self.added = []
+        import logging; self.logger = logging.getLogger("probe"); self.logger.disabled = True
+    def on_service_removed(self, name, addrinfo): self.removed.append((name, addrinfo))
+    def on_service_added(self, name, addrinfo): self.added.append((name, addrinfo))
+NOW = 1000000.0
+real_time = time.time
+registry.time.time = lambda: NOW
+out, cases = [], 0
+ages = {"fresh": 1.0, "older": 50.0, "limit": 100.0, "stale": 150.0}
+servers = [("10.0.0.%d" % i, 18000 + i) for i in range(3)]
+try:
+    for k in range(0, 4):
+        for order in itertools.permutations(range(k)):
+            for combo in itertools.product(sorted(ages), repeat=k):
+                for spelling in ("FOO", "foo", "Foo"):
+                    cases += 1
+                    p = Probe()
+                    p.services["BAR"] = {("10.9.9.9", 1): NOW - 1.0}
+                    if k:
+                        p.services["FOO"] = {}
+                        for j in order:
+                            p.services["FOO"][servers[j]] = NOW - ages[combo[j]]
+                    got = p.cmd_query("1.2.3.4", spelling)
+                    live = sorted([(NOW - ages[combo[j]], servers[j]) for j in range(k) if ages[combo[j]] <= 100.0])
+                    want_set = {s for _, s in live}
+                    # oldest refresh first; entries refreshed at the same instant may come in either order
+                    ok = set(got) == want_set and len(got) == len(want_set) and \
+                        all((NOW - ages[combo[servers.index(a)]]) <= (NOW - ages[combo[servers.index(b)]]) for a, b in zip(got, got[1:]))
+                    stale = {servers[j] for j in range(k) if ages[combo[j]] > 100.0}
+                    ok = ok and {a for n, a in p.removed} == stale and len(p.removed) == len(stale) and not p.added
+                    ok = ok and p.services.get("BAR") == {("10.9.9.9", 1): NOW - 1.0}
+                    ok = ok and set(p.services.get("FOO", {})) == want_set
+                    if not ok and len(out) < 5:
+                        out.append({"id": "bounded:cmd_query:%s/%s/%s" % (",".join(combo), "".join(map(str, order)), spelling), "ok": False,
+                                    "detail": "answer %r, removals %r; live registrations oldest first: %r" % (got, p.removed, [s for _, s in live])})
+finally:
+    registry.time.time = real_time
+out.append({"id": "bounded:cmd_query:all-cases", "ok": not out, "detail": "%d cases" % cases, "cases": cases})
+print(json.dumps(out))
+'''
+
+
+def registry_query_bounded(repo):
+    p = subprocess.run(["/venv/bin/python", "-c", _QUERY, repo], capture_output=True, text=True, timeout=300)
+    if p.returncode != 0:
+        return [{"id": "bounded:cmd_query", "ok": False, "detail": "bounded run crashed: " + (p.stderr or "")[-500:]}]
+    return json.loads(p.stdout.strip().splitlines()[-1])
+
+
+BOUNDS["registry_query_bounded"] = ("rpyc/utils/registry.py::RegistryServer.cmd_query", QUERY_BOUND)
